@@ -11,6 +11,7 @@ typedef struct {
   int64_t *bounds; int nb;           /* absolute sample positions where a page's audio ends/begins, plus link starts */
   long *pagestart; int nps;          /* byte offsets of page starts */
   size_t linkoff[VH_MAXLINKS+1];
+  long goff[VH_MAXLINKS];       /* granule offset the link was muxed with (known to the harness) */
   double tstart[VH_MAXLINKS+1];
   int nlinks;
 } stream_t;
@@ -31,7 +32,7 @@ static void stream_index(stream_t *s){
       pageinfo_t *p=&s->pages[i];
       if((long)p->serial!=L->serial || p->granule<0) continue;
       if(p->off<(long)s->linkoff[l] || p->off>=(long)s->linkoff[l+1]) continue;
-      int64_t g=p->granule; if(g>L->len)g=L->len;
+      int64_t g=p->granule-s->goff[l]; if(g<0)g=0; if(g>L->len)g=L->len;
       s->bounds[s->nb++]=L->start+g;
     }
   }
@@ -52,7 +53,7 @@ static int bound_is_continued_tail(const stream_t *s,int64_t b){
       const pageinfo_t *p=&s->pages[i];
       if((long)p->serial!=L->serial || p->granule<0) continue;
       if(p->off<(long)s->linkoff[l] || p->off>=(long)s->linkoff[l+1]) continue;
-      int64_t g=p->granule; if(g>L->len)g=L->len;
+      int64_t g=p->granule-s->goff[l]; if(g<0)g=0; if(g>L->len)g=L->len;
       if(L->start+g==b && p->continued && p->packets<=1) return 1;
     }
   }
@@ -245,7 +246,7 @@ static void run_case(const drvargs_t *a,long id){
   char desc[700];
   res_begin(id);
   long maxN = exhaustive ? (a->thorough?6000:2500) : (a->thorough?60000:24000);
-  gen_chain(&r, exhaustive?3:(a->thorough?8:5), maxN, GC_ALLOW_EMPTY|GC_MULTICH|GC_MANAGED|GC_BIGPAGES, &cd);
+  gen_chain(&r, exhaustive?3:(a->thorough?8:5), maxN, GC_GOFFSET|GC_ALLOW_EMPTY|GC_MULTICH|GC_MANAGED|GC_BIGPAGES, &cd);
   if(exhaustive) for(int i=0;i<cd.nlinks;i++){ if(cd.cfg[i].channels>2 && cd.cfg[i].channels<=8) cd.cfg[i].channels=2; }
   chain_describe(&cd,desc,sizeof desc);
   /* every 4th case some links are model-made (block sizes 64..8192 in any pair, floor 0, end-trimmed last packet, ...) */
@@ -253,7 +254,7 @@ static void run_case(const drvargs_t *a,long id){
   if(!modelmask){ if(build_chain(&cd,&phys,s.linkoff)){ res_sample("encoder setup refused: %s",desc); res_end(); buf_free(&phys); return; } }
   else if(build_chain_mixed(&r,&cd,modelmask,exhaustive?12:50,8,&phys,s.linkoff,desc,sizeof desc)){ res_sample("setup refused: %s",desc); res_end(); buf_free(&phys); return; }
   vh_dump("stream.ogg",phys.p,phys.n);
-  s.d=phys.p; s.n=phys.n; s.nlinks=cd.nlinks;
+  s.d=phys.p; s.n=phys.n; s.nlinks=cd.nlinks; for(int i=0;i<cd.nlinks;i++) s.goff[i]=cd.goffset[i];
   if(ref_decode(s.d,s.n,0,&s.ref)){
     res_viol("C07","linear-read-broken","%s: %s",s.ref.err,desc); res_eval(1); res_end(); ref_free(&s.ref); buf_free(&phys); return;
   }
